@@ -221,6 +221,12 @@ func genPubItem(r *rng, ctx pubCtx, id string, now int64, invalid int, force *pu
 		it.Route = "p0"
 	case 4: // unresolvable target
 		it.Target = "http://127.0.0.1:9/other"
+	case 19: // a target that differs from an allowed one only by letter case
+		t := rt.Targets[0]
+		it.Target = strings.ToUpper(t[:1]) + t[1:]
+		if r.chance(50) {
+			it.Target = strings.ToUpper(t)
+		}
 	case 5: // payload too large
 		big := make([]byte, rt.MaxBody+1+r.intn(3))
 		if len(big) > 4096 {
@@ -368,6 +374,52 @@ func doPublish(be *backend, adm http.Handler, ctx pubCtx, clock *fakeClock, item
 	return after, nil
 }
 
+// a batch larger than the room left in a `reject` queue: refused as a whole, however the store call is organised
+func pubNearFull(dir string, emit func(interface{})) error {
+	clock := &fakeClock{now: 1_698_000_000_000_000_000}
+	ctx := pubCtx{AllowPull: true, AllowDeliver: true}
+	ctx.Audit = pubAuditCfg{ActorAllow: []string{}, ActorPrefix: []string{}}
+	ctx.Routes = []pubRoute{{Path: "/p0", Targets: []string{"pull"}, PublishEnabled: true, DirectEnabled: true, ManagedEnabled: true, Mode: "pull", MaxBody: 2 << 20, MaxHeaders: 64 << 10}}
+	compiled, err := compileText("pull_api {\n  auth token raw:t\n}\n/p0 {\n  pull {\n    path /pull/p0\n  }\n}\n")
+	if err != nil {
+		return err
+	}
+	caseNo := 200000
+	idN := 0
+	for _, backendName := range []string{"memory", "sqlite"} {
+		for _, depth := range []int{300, 600} {
+			for _, n := range []int{depth - 1, depth, depth + 1, depth + 100, 1000} {
+				if n > 1000 {
+					continue
+				}
+				caseNo++
+				qc := jcfg{Backend: backendName, Memory: backendName == "memory", MaxDepth: depth, PruneInterval: int64(time.Hour)}
+				qc.PressureItems = effectivePressure(qc)
+				be := &backend{cfg: qc, clock: clock, path: filepath.Join(dir, fmt.Sprintf("nf%d.db", caseNo))}
+				if err := be.open(); err != nil {
+					return err
+				}
+				rt, err := app.VerifNewRuntime(compiled, clock.Now)
+				if err != nil {
+					be.close()
+					return err
+				}
+				items := make([]pubItem, 0, n)
+				for i := 0; i < n; i++ {
+					idN++
+					items = append(items, pubItem{ID: fmt.Sprintf("nf%d", idN), Route: "/p0", RecvOK: true, NextOK: true, Headers: [][2]string{}})
+				}
+				if _, err := doPublish(be, rt.AdminServer(be.store()), ctx, clock, items, nil, map[string]string{"reason": "why", "actor": "", "requestId": ""}, caseNo, 0, emit); err != nil {
+					return err
+				}
+				be.close()
+				_ = os.Remove(be.path)
+			}
+		}
+	}
+	return nil
+}
+
 // exhaustive sweeps that random generation would hit too rarely: every audit-policy combination x path x header
 // presence, and every single byte inside a header name and a header value
 func pubSweeps(dir string, emit func(interface{})) error {
@@ -491,6 +543,9 @@ func cmdPublish(args []string) error {
 		if err := pubSweeps(dir, emit); err != nil {
 			return err
 		}
+		if err := pubNearFull(dir, emit); err != nil {
+			return err
+		}
 	}
 	for c := 0; c < *nc; c++ {
 		text, ctx := genPubConfig(r)
@@ -547,7 +602,7 @@ func cmdPublish(args []string) error {
 			}
 			bad := map[int]int{}
 			for k := 0; k < nInvalid && n > 0; k++ {
-				bad[r.intn(n)] = 1 + r.intn(18)
+				bad[r.intn(n)] = 1 + r.intn(19)
 			}
 			var items []pubItem
 			var managed *pubRoute
